@@ -320,10 +320,9 @@ func (w *vxC11World) judge(key int, k *vstats.Case) (known error, err error) {
 		seen := map[*HostInfo]bool{}
 		for _, h := range reps {
 			if h != nil && seen[h] {
-				// C10's defect (a node twice in the replica list): no verdict from this pick
-				k.Excluded("c10-duplicate-in-replica-list")
-				_, _ = vxC11Drain(w.pol.Pick(w.query(key)), 8*n+8)
-				return nil, nil
+				// a node twice in the driver's own replica list (C10's subject; repaired in /repo): the
+				// selection then offers that host twice, which is a violation here too - keep judging
+				k.Class("duplicate-in-own-replica-list")
 			}
 			seen[h] = true
 		}
@@ -577,10 +576,6 @@ func vxC11Run(c *vxC11Case, k *vstats.Case) error {
 		}
 	})
 	if p {
-		if c.Pol.KS == 2 && strings.HasPrefix(msg, "token map different size to token ring") {
-			k.Excluded("c10-absent-dc-panic")
-			return nil
-		}
 		return fmt.Errorf("policy panicked outside Pick: %s", msg)
 	}
 	if verr != nil {
